@@ -248,8 +248,70 @@ func (c *Ctx) commitBatchesAndConcurrency() {
 	}
 }
 
+// commitTwins: blobs that differ from one another in exactly one attribute (signer, share version, namespace,
+// one data byte, one byte of length) are committed to one after the other, each at several thresholds: every
+// commitment must be the Merkle root over that blob's own subtree roots (computed by GenerateSubtreeRoots, by the
+// independent chunk-by-chunk reference and by the model), whatever was committed to before
+func (c *Ctx) commitTwins() {
+	for rep := 0; rep < c.n(12, 200); rep++ {
+		ns := c.userNamespaces(2)
+		n := c.rng.Pick([]int{1, 100, 458, 459, 478, 479, 940, 1500, c.sparseLen(8)})
+		base := c.randBlob(ns[0], n, true)
+		twins := []blobSpec{base}
+		add := func(f func(b *blobSpec)) {
+			t := blobSpec{ns: append([]byte(nil), base.ns...), ver: base.ver, signer: append([]byte(nil), base.signer...), data: append([]byte(nil), base.data...)}
+			f(&t)
+			twins = append(twins, t)
+		}
+		add(func(b *blobSpec) { b.signer[c.rng.Intn(20)] ^= 0x01 })
+		add(func(b *blobSpec) { b.signer = c.rng.Bytes(20) })
+		add(func(b *blobSpec) { b.ver = 0; b.signer = nil })
+		add(func(b *blobSpec) { b.ns = append([]byte(nil), ns[1].Bytes()...) })
+		add(func(b *blobSpec) { b.ns[28] ^= 0x01 })
+		add(func(b *blobSpec) { b.data[len(b.data)-1] ^= 0x80 })
+		add(func(b *blobSpec) { b.data[0] ^= 0x01 })
+		add(func(b *blobSpec) { b.data = append(b.data, 0) })
+		add(func(b *blobSpec) { b.ver = 0; b.signer = nil; b.data = append(append([]byte(nil), base.signer...), base.data...) })
+		twins = append(twins, base)
+		for _, thr := range []int{64, 1, 2} {
+			for ti, t := range twins {
+				blob, err := t.blob()
+				if err != nil {
+					continue
+				}
+				c.oracle()
+				com, err1 := inclusion.CreateCommitment(blob, simpleMerkle, thr)
+				roots, err2 := inclusion.GenerateSubtreeRoots(blob, thr)
+				want, err3 := refSubtreeRoots(blob, thr)
+				if thr != 2 && len(t.data) <= 2000 {
+					op := fmt.Sprintf("commit roots %s %d", t.String(), thr)
+					if err2 != nil {
+						c.emit(op, "err")
+					} else {
+						parts := make([]string, len(roots))
+						for i, r := range roots {
+							parts[i] = hx(r)
+						}
+						c.emit(op, "ok "+strings.Join(parts, ","))
+					}
+				}
+				if err1 != nil || err2 != nil || err3 != nil || digList(roots) != digList(want) || !bytes.Equal(com, simpleMerkle(want)) {
+					c.violate("C05", "", fmt.Sprintf("twin %d of a %d-byte version-1 blob (differs from the blob committed before in one attribute), threshold %d: the commitment is not the Merkle root over this blob's own subtree roots", ti, n, thr), t.String(), nil)
+				}
+				batch, err4 := inclusion.CreateCommitments([]*share.Blob{blob}, simpleMerkle, thr)
+				if err4 != nil || len(batch) != 1 || !bytes.Equal(batch[0], simpleMerkle(want)) {
+					c.violate("C05", "", fmt.Sprintf("twin %d of a %d-byte version-1 blob, threshold %d: CreateCommitments differs from the Merkle root over this blob's own subtree roots", ti, n, thr), t.String(), nil)
+				}
+			}
+		}
+		c.dist("commit-twins")
+	}
+}
+
 func streamCommit(c *Ctx) {
 	c.commitBatchesAndConcurrency()
+	c.newCase()
+	c.commitTwins()
 	nc := c.n(250, 5000)
 	maxes := []int{2, 4, 4, 8, 8, 16}
 	if c.thorough {
